@@ -69,4 +69,15 @@ def propSizes (args impl : List String) : Except String String := do
   let spec := s!"ok {if t.isFixed then 1 else 0} {t.typeByteLength} {t.minSize} {t.maxSize}"
   return verdictEq "sizes" (" ".intercalate impl) spec
 
+/-- family dispatcher: `none` = not an op of this family; result = (model observation or "-", PROP verdict) -/
+def handle (name : String) (args impl : List String) : Option (Except String (String × String)) :=
+  let wrap (r : Except String String) : Option (Except String (String × String)) := some (r.map fun v => ("-", v))
+  match name with
+  | "htr" => wrap (propHtr args impl)
+  | "ser" => wrap (propSer args impl)
+  | "rt" => wrap (propRt args impl)
+  | "dec" => wrap (propDec args impl)
+  | "sizes" => wrap (propSizes args impl)
+  | _ => none
+
 end Driver.OpsSpec
